@@ -66,7 +66,7 @@ DELIVERABLES, all in {out}/ :
                 "needs_to_manifest": "<what exactly is needed for the breakage to show>",
                 "files_changed": ["litedram/..."],
                 "ran": "<the commands you ran and what they showed: demo on unmodified tree, demo with change, test suite with change>"}}
-Before finishing: verify demo.py exits 0 with the change reverted (`git -C {wt} stash` / `stash pop`) and non-zero with it, and that the test suite shows
+Before finishing: verify demo.py exits 0 with the change reverted (use `git -C {wt} diff > /tmp/x.diff; git -C {wt} apply -R /tmp/x.diff` and re-apply with `git apply`; do NOT use `git stash`: the stash is shared with other reviewers' worktrees) and non-zero with it, and that the test suite shows
 no new failure with the change. Leave the change applied in the worktree when you finish. Your final message: a two-line summary only.
 """
     open("/tmp/seed/prompts/%s.txt" % name, "w").write(txt)
